@@ -75,7 +75,24 @@ def check(ctx):
             )
     # ---- fit
     it = interp(ctx, opaque={LAW}, opaque_methods={"regularize_initial_guess"})
-    m, paths = run_method(it, "fit")
+    reg = bc.lookup("regularize_initial_guess")
+    m = fc.lookup("fit")
+    ctx.touch(m.qualname)
+
+    def run_fit(x):
+        sv = Inst(fc, {"bounds": Inst(bc, {}, "self.bounds")}, "self")
+        x._exec_function(m, {p: Num(nf.sym(p)) for p in m.params[1:]}, sv, None, fc)
+        # evaluate the fitted model the way curve_fit does - f(x, *params) with one parameter per entry of the
+        # first guess - inside the same trace partition, so that its branches agree with fit()'s own
+        cfe = [e for e in x.events if e.kind == "ext_call" and e.data["callee"] == "scipy.optimize.curve_fit"]
+        rge = [e for e in x.events if e.kind == "int_call" and e.data["callee"] == reg.qualname]
+        if len(cfe) == 1 and len(rge) == 1 and isinstance(rge[0].data["args"]["guess"], TupV) and isinstance(cfe[0].data["args"].get("f"), FuncV):
+            n = len(rge[0].data["args"]["guess"].items)
+            args = [Num(nf.sym("@x"))] + [Num(nf.sym(f"@p{k}")) for k in range(n)]
+            return x.call(cfe[0].data["args"]["f"], args, {}, cfe[0].node, None)
+        return None
+
+    paths = it.explore(run_fit)
     rets = returns(paths)
     arms = []
     for p in rets:
@@ -110,33 +127,26 @@ def check(ctx):
         okp = len(regs) == 1 and at is not None and at[0] == "fn" and at[1] == reg.qualname
         ctx.check(okp, "C05-d", m.qualname + f":first guess regularised [{tag}]", where, "the first guess handed to curve_fit is the value returned by regularize_initial_guess (moved inside the bounds)", signature="p0 not regularised", p0=nf.show(p0n, 160))
         raw_guess = regs[0].data["args"]["guess"] if regs else None
-        # C05-e closure signature and law call inside the closure
+        # C05-b/e the model evaluated as curve_fit evaluates it: f(x, p0[, p1])
         fv = a.get("f")
         if not isinstance(fv, FuncV):
             raise AnalysisError("fit: curve_fit model is not a local function")
-        want_params = ["time_on_production", "M", "tau"] if free_tau else ["time_on_production", "M"]
-        ctx.check(fv.info.params[1:] == want_params[1:] and len(fv.info.params) == len(want_params), "C05-e", m.qualname + f":model signature [{tag}]", fv.info.where(), "the fitted model takes (time, M" + (", tau)" if free_tau else ")") + " in that order", signature="model signature " + ",".join(fv.info.params))
-        it2 = interp(ctx, opaque={LAW})
-
-        def runc(x, fv=fv):
-            bound = {q: Num(nf.sym("@" + q)) for q in fv.info.params}
-            return x._exec_function(fv.info, bound, None, fv.env, None)
-
-        for cp in returns(it2.explore(runc)):
-            for e in [e for e in cp.events if e.kind == "int_call" and e.data["callee"] == LAW]:
-                ca = e.data["args"]
-                tnm = fv.info.params[0]
-                wantT = nf.sym("@tau") if free_tau else nf.sym("tau")
-                ok = it2.to_nf(ca["rf_curve"]) == nf.sym("self.rf_curve") and it2.to_nf(ca["time_on_production"]) == nf.sym("@" + tnm) and it2.to_nf(ca["M"]) == nf.sym("@M") and it2.to_nf(ca["tau"]) == wantT
-                rv = it2.to_nf(cp.value)
-                at = it2.single_atom(rv)
-                ok = ok and at is not None and at[0] == "fn" and at[1] == LAW
-                n_calls += 1
-                ctx.check(
-                    ok, "C05-b", m.qualname + f":model evaluates the law [{tag}]", f"{fv.info.file}:{e.line}",
-                    "the fitted model is the law with the object's curve, the model's own time and M, and " + ("its own tau" if free_tau else "the tau supplied to fit()"),
-                    signature="model binding", got={k: nf.show(it2.to_nf(x), 60) for k, x in ca.items()},
-                )
+        mcalls = [e for e in p.events if e.kind == "int_call" and e.data["callee"] == LAW and e.func.startswith(fv.info.qualname.split("#")[0])]
+        rv = it.to_nf(p.value) if p.value is not None else {}
+        at = it.single_atom(rv)
+        okm = len(mcalls) == 1 and at is not None and at[0] == "fn" and at[1] == LAW
+        got = {}
+        if okm:
+            ca = mcalls[0].data["args"]
+            got = {k: nf.show(it.to_nf(x), 60) for k, x in ca.items()}
+            wantT = nf.sym("@p1") if free_tau else nf.sym("tau")
+            okm = it.to_nf(ca["rf_curve"]) == nf.sym("self.rf_curve") and it.to_nf(ca["time_on_production"]) == nf.sym("@x") and it.to_nf(ca["M"]) == nf.sym("@p0") and it.to_nf(ca["tau"]) == wantT
+            n_calls += 1
+        ctx.check(
+            okm, "C05-b", m.qualname + f":model evaluates the law [{tag}]", fv.info.where(),
+            "called as curve_fit calls it, the fitted model returns the law with the object's curve, x as time, the first parameter as M and " + ("the second parameter as tau" if free_tau else "the tau supplied to fit()"),
+            signature="model binding", got=got,
+        )
         # first guess roles
         if isinstance(raw_guess, TupV):
             g = [it.to_nf(x) for x in raw_guess.items]
@@ -147,16 +157,23 @@ def check(ctx):
         # results
         st = {e.data["attr"]: e.data["value"] for e in p.events if e.kind == "store_attr" and e.data["attr"] in ("M_", "tau_")}
         fitres = cf[0].data["result"]
+        def fit_elem(v):
+            """k if v denotes popt[k] of the curve_fit result, else None"""
+            if isinstance(v, ExtObj) and "scipy.optimize.curve_fit[0][" in v.qual:
+                return int(v.qual.rsplit("[", 1)[1].rstrip("]"))
+            if v is not None:
+                at_ = it.single_atom(it.to_nf(v))
+                if at_ is not None and at_[0] == "fn" and at_[1] == "[]" and len(at_[2]) == 2 and "curve_fit[0]" in nf.show(nf.unkey(at_[2][0]), 200):
+                    return nf.as_int(nf.unkey(at_[2][1]))
+            return None
+
         if free_tau:
-            ok = isinstance(st.get("M_"), ExtObj) and isinstance(st.get("tau_"), ExtObj) and st["M_"].qual.endswith("[0][0]") and st["tau_"].qual.endswith("[0][1]")
-            ctx.check(ok, "C05-e", m.qualname + ":unpacking [tau fitted]", m.where(), "M_ and tau_ are the first and second fitted parameter", signature="unpack order")
+            ok = fit_elem(st.get("M_")) == 0 and fit_elem(st.get("tau_")) == 1
+            ctx.check(ok, "C05-e", m.qualname + f":results [{tag}]", m.where(), "M_ and tau_ are the first and second fitted parameter", signature="unpack order")
         else:
             okT = st.get("tau_") is not None and it.to_nf(st["tau_"]) == nf.sym("tau")
-            mv = it.to_nf(st.get("M_")) if st.get("M_") is not None else {}
-            at = it.single_atom(mv)
-            okM = at is not None and at[0] == "fn" and at[1] == "[]" and nf.as_int(nf.unkey(at[2][1])) == 0 and "curve_fit[0]" in nf.show(nf.unkey(at[2][0]), 200)
-            ctx.check(okT, "C05-g", m.qualname + ":tau returned unchanged", m.where(), "with a supplied tau, tau_ is exactly that value", signature="tau_", tau_=nf.show(it.to_nf(st.get("tau_")), 80) if st.get("tau_") is not None else "unset")
-            ctx.check(okM, "C05-g", m.qualname + ":M from the bounded fit", m.where(), "with a supplied tau, M_ is the (only) fitted parameter", signature="M_", M_=nf.show(mv, 120))
+            ctx.check(okT, "C05-g", m.qualname + f":tau returned unchanged [{tag}]", m.where(), "with a supplied tau, tau_ is exactly that value", signature="tau_", tau_=nf.show(it.to_nf(st.get("tau_")), 80) if st.get("tau_") is not None else "unset")
+            ctx.check(fit_elem(st.get("M_")) == 0, "C05-g", m.qualname + f":M from the bounded fit [{tag}]", m.where(), "with a supplied tau, M_ is the (only) fitted parameter", signature="M_")
     ctx.floor("C05-b", n_calls, 3, "call sites of the scaling law")
 
     # ---- C05-c Bounds validation
